@@ -504,7 +504,7 @@ impl<'a> Gen<'a> {
             if matches!(cls, "m" | "b" | "u") && self.res_keys.contains(&key) { c.push((cls.to_string(), tr.to_string(), m.to_string(), toks.to_vec())); }
             return;
         }
-        if self.skip.contains(&key) || self.skip.contains(&format!("{cls}.{key}")) { return; }
+        if !self.skip.is_empty() && (self.skip.contains(tr) || self.skip.contains(&key) || self.skip.contains(&format!("{cls}.{key}"))) { return; }
         if self.suffix.is_empty() { self.seen.entry(key).or_default().insert(cls.to_string()); }
         else {
             match self.only { Only::ResImpl if !self.res_keys.contains(&key) => return, Only::Generic if !self.gen_keys.contains(&key) => return, _ => {} }
@@ -899,9 +899,9 @@ fn gen_part2(g: &mut Gen, thorough: bool, captured: &[Captured]) {
     }
 }
 
-/// `Trait.method` (or `class.Trait.method`) keys left out on the huge receivers of stream 8c: the real call or the list-backed
+/// traits, `Trait.method` or `class.Trait.method` keys left out on the huge receivers of stream 8c: the real call or the list-backed
 /// model is not an early refusal there (measured: more than ~50 ms per line at 20 000 elements)
-const HUGE_SKIP: &[&str] = &[];
+const HUGE_SKIP: &[&str] = &["ArrayStringCompare", "ArrayStringIndexing", "ArrayStringManipulate", "ArrayStringValidate", "ArrayJoining.vstack", "ArrayJoining.row_stack", "o.ArrayReorder.flip"];
 
 fn gen(tier: &str, _seed: u64, out: &mut dyn FnMut(String)) {
     let ents = entries();
